@@ -111,7 +111,7 @@ pub fn quiet_panics() {
 }
 
 impl WorldExec {
-    /// `cfg <shared|any|local|localany> <hot|nohot-ctor|nohot-src>`
+    /// `cfg <shared|any|local|localany> <hot|nohot-ctor|nohot-src|nohot-cfgfail>`
     pub fn new(frontend: &str, mode: &str) -> WorldExec {
         quiet_panics();
         *loader_faults() = (0, BTreeMap::new());
@@ -119,7 +119,9 @@ impl WorldExec {
         assets_manager::verif::set_yield_hook(Some(yield_hook));
         let known_max: u64 = HR_OS_TID.lock().unwrap_or_else(|e| e.into_inner()).keys().next_back().copied().unwrap_or(0);
         let (local, via_any) = match frontend { "shared" => (false, false), "any" => (false, true), "local" => (true, false), _ => (true, true) };
-        let src = MemSource::new(mode == "hot" || mode == "nohot-ctor");
+        let src = MemSource::new(mode == "hot" || mode == "nohot-ctor" || mode == "nohot-cfgfail");
+        // hot-reloading fails to start AFTER the source kept the sender: the cache must be built without a reloader
+        if mode == "nohot-cfgfail" { src.lock().cfg_fail = true; }
         let (fe, has_reloader) = if local {
             (Fe::Local(Box::new(LocalAssetCache::with_source(src.clone()))), false)
         } else if mode == "nohot-ctor" {
@@ -398,7 +400,8 @@ impl WorldExec {
                     None => "no-reloader".into(),
                     Some(tx) => {
                         if evs.len() == 1 { let _ = tx.send(evs.pop().unwrap()); } else { let _ = tx.send_multiple(evs); }
-                        if self.sync() { "ok".into() } else { "sync-timeout".into() }
+                        // a source that kept the sender although hot-reloading did not start: the events go nowhere
+                        if !self.has_reloader { self.sync(); "no-reloader".into() } else if self.sync() { "ok".into() } else { "sync-timeout".into() }
                     }
                 }
             }
